@@ -67,7 +67,7 @@ Theorem C06_nested_classes_agree :
       to_opt (structure E (mk_cfg true dv1 false false) n t o) = to_opt (structure E (mk_cfg false dv2 false false) n t o).
 Proof.
   intros E dv1 dv2 Henv n t o Hs.
-  apply structure_agree; [reflexivity | reflexivity | reflexivity | reflexivity | apply mk_cfg_recheck | apply mk_cfg_recheck | apply mk_cfg_kw_last | apply mk_cfg_kw_last | exact Henv | right; exact Hs].
+  apply structure_agree; [reflexivity | reflexivity | reflexivity | intros _; reflexivity | apply mk_cfg_recheck | apply mk_cfg_recheck | apply mk_cfg_kw_last | apply mk_cfg_kw_last | exact Henv | right; exact Hs].
 Qed.
 Print Assumptions C06_nested_classes_agree.
 
